@@ -42,9 +42,8 @@ def rng(seed: int, label: str) -> random.Random:
 
 
 def digest(obj: Any) -> str:
-    return hashlib.sha256(
-        json.dumps(obj, sort_keys=True, default=str).encode()
-    ).hexdigest()[:16]
+    # key order is significant (bindings, documents): two traces that differ in it are different
+    return hashlib.sha256(json.dumps(obj, default=str).encode()).hexdigest()[:16]
 
 
 def batch_seed() -> int:
